@@ -79,7 +79,8 @@ def run(rep, tier, seed):
         elif not r["identity"]:
             kinds = ["identity"]
         elif r["derivedBad"]:
-            kinds = ["derived:b%d" % k for k in r.get("badOffsets", [])] or ["derived"]
+            bv = r.get("badValues", {})
+            kinds = ["derived:b%d:v%s" % (k, bv.get(str(k), "")) for k in r.get("badOffsets", [])] or ["derived"]
         else:
             kinds = ["registry"]
         for kind in kinds:
